@@ -1776,7 +1776,7 @@ func (p *verifCCProc) incubate(
 // mine advances the chain by one block: scripted peer claims, the nursery and
 // the sweeper get their transactions confirmed, epochs are sent, and the
 // blockbeat is handed to the arbitrator.
-func (w *verifCCWorld) mine(p *verifCCProc) {
+func (w *verifCCWorld) mine(t testing.TB, p *verifCCProc) {
 	w.mu.Lock()
 	w.height++
 	height := w.height
@@ -1964,6 +1964,18 @@ func (w *verifCCWorld) mine(p *verifCCProc) {
 		}
 	}
 
+	// Let the resolvers work off the notifications before the epoch and
+	// the blockbeat arrive. lnd's launchResolvers (run by the blockbeat
+	// handler) reads the active resolver slice without the lock while a
+	// resolver goroutine that is swapping contracts writes it
+	// (replaceResolver): delivered concurrently, that data race can tear
+	// the interface value and crash the process, which has nothing to do
+	// with restarts. (Reported separately.)
+	w.quiesce(t, p)
+	if p.dead.Load() {
+		return
+	}
+
 	// Block epochs, then the blockbeat.
 	p.mu.Lock()
 	eps := append([]chan *chainntnfs.BlockEpoch(nil), p.epochRegs...)
@@ -1973,6 +1985,10 @@ func (w *verifCCWorld) mine(p *verifCCProc) {
 		case ch <- &chainntnfs.BlockEpoch{Height: height}:
 		default:
 		}
+	}
+	w.quiesce(t, p)
+	if p.dead.Load() {
+		return
 	}
 	p.block(height)
 }
